@@ -485,7 +485,8 @@ def main(argv=None):
                     print("HARNESS-ERROR shrinking failed: %r" % (e,))
                     return 2
         for r in reported:
-            name = "%s-%d-%s.json" % (prop, verif_seed, hashlib.sha256(r["sig"].encode()).hexdigest()[:10])
+            name = "%s-%d-%s%s.json" % (prop, verif_seed, hashlib.sha256(r["sig"].encode()).hexdigest()[:10],
+                                        "-O" if sys.flags.optimize else "")
             path = os.path.join(REPLAYS, name)
             clause = r["sig"].split("/")[1]
             with open(path, "w") as f:
@@ -494,6 +495,8 @@ def main(argv=None):
                     "verif_seed": verif_seed, "run_index": r["orig_run_index"], "tier": tier,
                     "tapes": r["tapes"], "scenario": r["scenario"], "expected_digest": r["digest"],
                     "shrink_tries": r["tries"], "summary": r["sample"],
+                    # python -O strips assert statements from the code under test: part of the run's identity
+                    "python_optimize": int(sys.flags.optimize),
                 }, f, indent=1, default=str)
             if not r["reproduced"]:
                 print("HARNESS-ERROR violation %s did not reproduce from its own tapes "
